@@ -52,6 +52,18 @@ impl Default for Z80 {
 }
 
 impl Z80 {
+    /// Verification hook: pending prefix byte consumed by the previous `emulate` call (0 = none)
+    #[cfg(rustzx_verif)]
+    pub fn verif_prefix(&self) -> u8 {
+        self.active_prefix.to_byte().unwrap_or(0)
+    }
+
+    /// Verification hook: sets the pending prefix (0 = none)
+    #[cfg(rustzx_verif)]
+    pub fn verif_set_prefix(&mut self, byte: u8) {
+        self.active_prefix = Prefix::from_byte(byte);
+    }
+
     /// Reads byte from memory and increments PC
     #[inline]
     pub(crate) fn fetch_byte(&mut self, bus: &mut impl Z80Bus, clk: usize) -> u8 {
